@@ -26,6 +26,8 @@ type stepper struct {
 	dead  bool
 	// relax: after an injected panic the model is no longer consulted
 	relax bool
+	// quiet: generation mode, nothing is reported (c may be nil)
+	quiet bool
 }
 
 func typOf(m p9.FileMode) byte {
@@ -92,25 +94,31 @@ type stepResult struct {
 func (s *stepper) step(conn int, t uint8, vals ...any) stepResult {
 	req := wire.Msg{Type: t, F: vals}
 	desc := fmt.Sprintf("c%d %s", conn, req.String())
-	s.trace = append(s.trace, desc)
-	v := s.w.Judge(conn, req)
 	mark := s.fs.NCalls()
 	res := s.peers[conn].RPC(t, vals...)
-	out := stepResult{verdict: v}
 	if !res.OK {
-		det := map[string]any{"request": desc, "trace": s.tail()}
-		if res.Out == quiesce.CondMet {
-			s.c.Violation(s.prop+":connection-ended-by-request:"+wire.TypeName(t), det)
-		} else {
-			hang(s.c, res.Out, res.Dump, s.prop+":request-never-answered:"+wire.TypeName(t), det)
+		s.trace = append(s.trace, desc)
+		if !s.quiet {
+			det := map[string]any{"request": desc, "trace": s.tail()}
+			if res.Out == quiesce.CondMet {
+				s.c.Violation(s.prop+":connection-ended-by-request:"+wire.TypeName(t), det)
+			} else {
+				hang(s.c, res.Out, res.Dump, s.prop+":request-never-answered:"+wire.TypeName(t), det)
+			}
 		}
 		s.dead = true
-		return out
+		return stepResult{verdict: s.w.Judge(conn, req)}
 	}
-	out.reply, out.ok = res.Msg, true
-	calls := s.fs.Calls(mark)
-	out.calls = calls
-	s.trace[len(s.trace)-1] = desc + " -> " + res.Msg.String()
+	s.trace = append(s.trace, desc+" -> "+res.Msg.String())
+	return s.judgeDone(conn, req, res, s.fs.Calls(mark))
+}
+
+// judgeDone compares an executed request with the model and applies it.
+func (s *stepper) judgeDone(conn int, req wire.Msg, res rawpeer.Result, calls []*memfs.Call) stepResult {
+	t := req.Type
+	desc := fmt.Sprintf("c%d %s", conn, req.String())
+	v := s.w.Judge(conn, req)
+	out := stepResult{verdict: v, reply: res.Msg, ok: true, calls: calls}
 	if s.relax {
 		return out
 	}
@@ -126,6 +134,9 @@ func (s *stepper) step(conn int, t uint8, vals ...any) stepResult {
 		}
 	}
 	viol := func(kind string, extra map[string]any) {
+		if s.quiet {
+			return
+		}
 		det := map[string]any{"request": desc, "reply": res.Msg.String(), "model": v.Why, "backend_calls": callStrs(calls), "trace": s.tail(), "model_state": s.w.Key()}
 		for k, x := range extra {
 			det[k] = x
@@ -157,6 +168,19 @@ func (s *stepper) step(conn int, t uint8, vals ...any) stepResult {
 	case v.LocalOrForward:
 		if res.Msg.Type != v.Success && !(res.Msg.Type == wire.Rlerror && anyErr(calls)) {
 			viol("wrong-reply", map[string]any{"want": wire.TypeName(v.Success)})
+		}
+	case v.Forward && t == wire.Tclunk:
+		// Tclunk reports the error of the deferred xattr operation or of
+		// Close, whichever the server prefers; Close's error may also be ignored.
+		var union []int64
+		for _, cl := range calls {
+			if cl.ErrVal != nil {
+				union = append(union, errnoSet(cl.ErrVal)...)
+			}
+		}
+		okc := (res.Msg.Type == v.Success && firstErr == nil) || (res.Msg.Type == wire.Rlerror && inSet(union, errno))
+		if !okc {
+			viol("clunk-wrong-reply", map[string]any{"acceptable_errnos": union})
 		}
 	case v.Forward:
 		if firstErr != nil {
